@@ -245,6 +245,9 @@ func TestC09(t *testing.T) {
 		for mask := 0; mask < 1<<len(slots); mask++ {
 			c := scriptBaseCase()
 			c.Formats = []string{f}
+			if mask%3 == 1 {
+				c.Umask = 0o027 // slot modes are fixed by the format, not by the package umask
+			}
 			for i, s := range slots {
 				if mask&(1<<i) != 0 {
 					addScript(c, s, fmt.Sprintf("#!/bin/sh\n# slot %s of subset %d\necho %s\n", s, mask, s), 950000000+int64(i))
@@ -270,6 +273,16 @@ func TestC09(t *testing.T) {
 			if rapid.IntRange(0, 2).Draw(rt, "set."+s) != 0 {
 				addScript(c, s, genScriptBytes(rt, s), genMTime(rt, "mt."+s))
 			}
+		}
+		// two slots may be wired to the very same file
+		if len(c.Scripts) >= 2 && rapid.IntRange(0, 3).Draw(rt, "shared-path") == 0 {
+			keys := sortedKeys(c.Scripts)
+			a := rapid.SampledFrom(keys).Draw(rt, "shared.a")
+			b := rapid.SampledFrom(keys).Draw(rt, "shared.b")
+			c.Scripts[b] = c.Scripts[a]
+		}
+		if rapid.Bool().Draw(rt, "umask?") {
+			c.Umask = uint32(rapid.SampledFrom([]int{0o022, 0o027, 0o077, 0o111, 0o133}).Draw(rt, "umask"))
 		}
 		st.Record(c, nontrivialC09(c), fmt.Sprintf("slots:%d", len(c.Scripts)))
 		st.Report(rt, c, checkC09(c))
